@@ -746,12 +746,13 @@ func runC13(c *Ctx) {
 // ---------- C18: snapshot ----------
 
 func runC18(c *Ctx) {
-	c.Rule = "an unevaluated authorizer with generated content (all term types, default and fresh symbols, several checks, ordered policies of both kinds) is saved and loaded into a fresh authorizer for the same or for a different token; original and restored authorizers run the same Authorize + Query panel. Also: save after evaluation must be refused; malformed snapshot bytes must give an error without panicking. Non-trivial = snapshot contains at least one fact/rule and one check/policy; distinct = distinct canonical encodings."
+	c.Rule = "an unevaluated authorizer with generated content (all term types, default and fresh symbols, several checks, ordered policies of both kinds) is saved and loaded into a fresh authorizer for the same or for a different token; original and restored authorizers run the same Authorize + Query panel. (live load) LoadPolicies on an authorizer that has already evaluated (default symbols and integers only), followed by Query / Authorize / Query. Also: save after evaluation must be refused; malformed snapshot bytes must give an error without panicking. Non-trivial = snapshot contains at least one fact/rule and one check/policy; distinct = distinct canonical encodings."
 	r := NewRng(c.Seed)
 	n := 1500
 	if c.Thorough {
 		n = 25000
 	}
+	liveLoad(c, r)
 	for i := 0; i < n; i++ {
 		g := newScenGen(r, r.Intn(3))
 		t0, t1 := g.token(r.Intn(3)), g.token(r.Intn(3))
@@ -906,6 +907,23 @@ func undeclaredSymbols(c *Ctx) {
 				[]AuthOp{{K: "addfact", Fact: Pred{Name: "admin", Terms: []Term{str("superuser")}}},
 					allow(Rule{Head: Pred{Name: "query"}, Exprs: []Expr{{{K: 'v', T: O(true)}}}})}},
 		}
+		// the undeclared string second in a set whose first element is declared
+		if k > 0 {
+			vs = append(vs, variant{"set-element", declared, nil,
+				[]*pb.CheckV2{{Queries: []*pb.RuleV2{{Head: &pb.PredicateV2{Name: u64p(sym("query"))},
+					Body: []*pb.PredicateV2{{Name: u64p(sym("resource")), Terms: []*pb.TermV2{pbVar(uint32(sym("path")))}}},
+					Expressions: []*pb.ExpressionV2{{Ops: []*pb.Op{
+						{Content: &pb.Op_Value{Value: pbSet(pbStr(1024), pbStr(dangling))}},
+						{Content: &pb.Op_Value{Value: pbVar(uint32(sym("path")))}},
+						{Content: &pb.Op_Binary{Binary: &pb.OpBinary{Kind: pb.OpBinary_Contains.Enum()}}}}}}}}}},
+				[]AuthOp{{K: "addfact", Fact: Pred{Name: "resource", Terms: []Term{str("superuser")}}},
+					allow(Rule{Head: Pred{Name: "query"}, Exprs: []Expr{{{K: 'v', T: O(true)}}}})}})
+		}
+		// a symbol list that is longer than what it adds to the table (a default symbol, a string
+		// listed twice): the undeclared index lies beyond the table but within the list's length
+		vs = append(vs, variant{"padded-symbol-list", append(append([]string{}, declared...), "admin", "twice", "twice"), 
+			[]*pb.FactV2{pbFact(sym("role"), pbStr(dangling+1))}, nil,
+			[]AuthOp{allow(Rule{Head: Pred{Name: "query"}, Body: []Pred{{Name: "role", Terms: []Term{str("superuser")}}}})}})
 		// a variable number without a declared name, next to a declared variable whose name is
 		// the very placeholder the library prints for that number: one variable in T, two in T+B
 		for _, placeholder := range []string{fmt.Sprintf("<invalid symbol %d>", dangling+1), fmt.Sprintf("<invalid variable %d>", dangling+1)} {
@@ -997,4 +1015,56 @@ func snapshotMissingField(data []byte, r *Rng) []byte {
 	}
 	m.Version = &three
 	return mustMarshal(&m)
+}
+
+
+// liveLoad: LoadPolicies on an authorizer that has already evaluated something. The content
+// uses default symbols and integers only, so that re-basing the symbol table (which
+// LoadPolicies does) cannot change what earlier content means; what is loaded must take part
+// in every later evaluation: Query, add via LoadPolicies, Query again, Authorize.
+func liveLoad(c *Ctx, r *Rng) {
+	n := 150
+	if c.Thorough {
+		n = 2500
+	}
+	names := []string{"right", "resource", "operation", "role", "owner", "user"}
+	fact := func() Pred { return Pred{Name: Pick(r, names), Terms: []Term{I(int64(r.Intn(3)))}} }
+	rule := func() Rule {
+		h, b := Pick(r, names), Pick(r, names)
+		rl := Rule{Head: Pred{Name: h, Terms: []Term{V("x")}}, Body: []Pred{{Name: b, Terms: []Term{V("x")}}}}
+		if r.Chance(1, 3) {
+			rl.Body = append(rl.Body, Pred{Name: Pick(r, names), Terms: []Term{V("y")}})
+		}
+		return rl
+	}
+	for i := 0; i < n; i++ {
+		var ops []AuthOp
+		for k, m := 0, 1+r.Intn(3); k < m; k++ {
+			ops = append(ops, AuthOp{K: "addfact", Fact: fact()})
+		}
+		if r.Chance(1, 2) {
+			ops = append(ops, AuthOp{K: "addrule", Rule: rule()})
+		}
+		q := Rule{Head: Pred{Name: "got", Terms: []Term{V("v")}}, Body: []Pred{{Name: Pick(r, names), Terms: []Term{V("v")}}}}
+		if r.Chance(1, 3) {
+			ops = append(ops, AuthOp{K: "authorize"})
+		} else {
+			ops = append(ops, AuthOp{K: "query", Rule: q})
+		}
+		var sub []AuthOp
+		for k, m := 0, r.Intn(3); k < m; k++ {
+			sub = append(sub, AuthOp{K: "addfact", Fact: fact()})
+		}
+		for k, m := 0, 1+r.Intn(2); k < m; k++ {
+			sub = append(sub, AuthOp{K: "addrule", Rule: rule()})
+		}
+		sub = append(sub, AuthOp{K: "addpolicy", Policy: Policy{Allow: r.Chance(2, 3), Queries: []Rule{{Head: Pred{Name: "query"}, Body: []Pred{{Name: Pick(r, names), Terms: []Term{V("p")}}}}}}})
+		ops = append(ops, AuthOp{K: "load", Sub: sub})
+		q2 := Rule{Head: Pred{Name: "got", Terms: []Term{V("v")}}, Body: []Pred{{Name: Pick(r, names), Terms: []Term{V("v")}}}}
+		ops = append(ops, AuthOp{K: "query", Rule: q2}, AuthOp{K: "authorize"}, AuthOp{K: "query", Rule: q})
+		ac := AuthCase{MaxFacts: 1000, MaxIter: 100, Ctor: "for", Tokens: [][]Block{{{Facts: []Pred{fact()}}}}, Ops: ops}
+		_, sx := emitAuth(c, "liveload", ac)
+		c.NonTrivial(sx)
+		c.Count("live-load")
+	}
 }
